@@ -95,6 +95,15 @@ def c03(ck, thorough):
 
 def c04(ck, thorough):
     """representation independence: every representation is bisimilar to the same spec automaton"""
+    # the contiguous NFA's state encoding, with its thresholds scaled down: decode(encode(s)) = s
+    for nm, a, cs, ms in [("c04_repr2", 6, 2, 3), ("c04_repr4", 6 if not thorough else 7, 4, 5)]:
+        mc(ck, "ACRepr", nm,
+           {"A": a, "ChunkSize": cs, "MaxSparse": ms, "KindOne": ms + 1, "KindDense": ms + 2,
+            "NextIds": "{3, 7}", "Pids": "{0, 1}", "MaxMatches": 3},
+           ["LookupOK", "FailOK", "MatchesOK", "LenOK", "OneHasNoMatch"])
+    # one DFA row filled from a sparse NFA state through the byte classes (sparse_iter)
+    mc(ck, "ACDfaRow", "c04_dfarow", {"MaxByte": 6 if thorough else 5, "NextIds": "{3, 7}"},
+       ["OncePerClass", "RowCorrect", "RepInClass", "ClassesRespectTransitions"])
     fams = ["f23", "ci", "shapes", "rand:%d:12:8" % (600 if thorough else 80)]
     if thorough:
         fams += ["f33", "ci3"]
